@@ -16,7 +16,7 @@ RULE = ("f-string literals from the product prefix x quote style x literal parts
         "neighbourhood (another string/f-string/dict/brace later on the line, implicit concatenation), plus every corpus statement containing an "
         "f-string; kept iff CPython 3.12 accepts; token streams (significant tokens, f-string middles merged) and trees (values and spans) must equal "
         "CPython's; distinct non-trivial = distinct sources with at least one replacement field or escape that reached both comparators")
-ASSUMPTIONS = ["reference = tokenize/ast.parse of CPython 3.12.1", "oracle normalisations of 3.12.1 artefacts: the empty Constant appended to a format spec ending in a nested field is dropped; empty FSTRING_MIDDLE tokens are dropped", "CPython splits a literal part at doubled braces (a{{b -> 'a{','b'); adjacent FSTRING_MIDDLE tokens are merged on both sides and only text is compared for them"]
+ASSUMPTIONS = ["reference = tokenize/ast.parse of CPython 3.12.1", "`=` debug fields whose expression contains !=, a comment or a nested f-string are skipped (CPython 3.12.1 computes their text wrongly)", "oracle normalisations of 3.12.1 artefacts: the empty Constant appended to a format spec ending in a nested field is dropped; empty FSTRING_MIDDLE tokens are dropped", "CPython splits a literal part at doubled braces (a{{b -> 'a{','b'); adjacent FSTRING_MIDDLE tokens are merged on both sides and only text is compared for them"]
 
 
 def worker_init():
@@ -54,6 +54,9 @@ def check_case(acc, src, origin):
     kind, cp = base.cpython(src, "exec")
     if kind != "tree":
         acc.count("skipped_cpython_" + kind)
+        return
+    if debug_field_quirk(ptoks):
+        acc.count("skipped_reference_defect_in_debug_field")
         return
     _drop_empty_spec_constants(cp)
     case = {"src": src, "origin": origin}
@@ -113,6 +116,28 @@ def _drop_empty_spec_constants(tree):
             vals = n.format_spec.values
             if len(vals) >= 2 and isinstance(vals[-1], ast.Constant) and vals[-1].value == "" and isinstance(vals[-2], ast.FormattedValue):
                 vals.pop()
+
+
+def debug_field_quirk(ptoks):
+    """CPython 3.12.1 computes the text of a `=` debug field wrongly when the expression contains `!=` (the text is cut at the `!`)
+    a comment (the comment is dropped) or a nested f-string (its escapes are decoded / its text is truncated): such fields are outside what this reference can judge"""
+    toks = [t for t in ptoks if t.type != pytok.NL]
+    for i, t in enumerate(toks):
+        if t.type == pytok.OP and t.string == "=" and i + 1 < len(toks) and toks[i + 1].type == pytok.OP and toks[i + 1].string in ("!", ":", "}"):
+            depth = 0
+            j = i - 1
+            while j >= 0:
+                u = toks[j]
+                if u.type == pytok.OP and u.string in ")]}":
+                    depth += 1
+                elif u.type == pytok.OP and u.string in "([{":
+                    if depth == 0:
+                        break
+                    depth -= 1
+                if u.type in (pytok.COMMENT, pytok.FSTRING_START, pytok.FSTRING_END) or (u.type == pytok.OP and u.string == "!="):
+                    return True
+                j -= 1
+    return False
 
 
 def _debug_markers(src, ptoks):
